@@ -19,6 +19,7 @@ Inductive sop :=
 | SMarkId (e : entity) (id : N)       (* allocator.allocate(e, Some(id)) + markers.insert *)
 | SDelete (e : entity)                (* world.delete_entity *)
 | SEDelete (e : entity)               (* entities.delete *)
+| SDeleteMany (es : list entity)      (* world.delete_entities *)
 | SMaintain                           (* world.maintain *)
 | SAllocMaintain                      (* allocator.maintain(&entities, &markers) *)
 | SSerialize                          (* SerializeComponents::serialize *)
@@ -42,6 +43,7 @@ Definition sl_step (nc : nat) (w : slw) (o : sop) : slw * sout :=
   | SMarkId e id => let '(w', r) := ma_mark_id w e id in (w', OMark r)
   | SDelete e => let '(w', ok) := sl_delete w e in (w', OBool ok)
   | SEDelete e => let '(w', ok) := sl_edelete w e in (w', OBool ok)
+  | SDeleteMany es => let '(w', ok) := sl_delete_many w es in (w', OBool ok)
   | SMaintain => (sl_maintain w, OUnit)
   | SAllocMaintain => (ma_maintain w, OUnit)
   | SSerialize => (w, match serialize w nc with Some d => OData d | None => OPanic end)
@@ -68,6 +70,7 @@ Inductive dop :=
 | DMarkId (h : nat) (id : N)
 | DDelete (h : nat)
 | DEDelete (h : nat)
+| DDeleteMany (hs : list nat)
 | DMaintain
 | DAllocMaintain
 | DSerialize (fmt : Z)                (* fmt: 0 serde_json, 1 RON; the model ignores it *)
@@ -98,6 +101,16 @@ Definition in_ents (e : entity) (l : list entity) : bool := existsb (entity_eqb 
 Definition hs_update (hs : list entity) (w : slw) : list entity :=
   hs ++ filter (fun e => negb (in_ents e hs)) (l_entities (sl_life w)).
 
+(* every position of a batch resolved, or nothing *)
+Fixpoint sl_hgets (hs : list entity) (l : list nat) : option (list entity) :=
+  match l with
+  | [] => Some []
+  | h :: r => match sl_hget hs h, sl_hgets hs r with
+              | Some e, Some es => Some (e :: es)
+              | _, _ => None
+              end
+  end.
+
 Definition resolve (hs : list entity) (c : cref) : option cdata :=
   match c with
   | CPlain z => Some (Plain z)
@@ -126,6 +139,7 @@ Definition d_step (uuid : bool) (s : dstate) (o : dop) : dstate * dout :=
   | DMarkId h id => d_apply uuid s (option_map (fun e => SMarkId e id) (sl_hget (d_hs s) h))
   | DDelete h => d_apply uuid s (option_map SDelete (sl_hget (d_hs s) h))
   | DEDelete h => d_apply uuid s (option_map SEDelete (sl_hget (d_hs s) h))
+  | DDeleteMany l => d_apply uuid s (option_map SDeleteMany (sl_hgets (d_hs s) l))
   | DMaintain => d_apply uuid s (Some SMaintain)
   | DAllocMaintain => d_apply uuid s (Some SAllocMaintain)
   | DSerialize _ => d_apply uuid s (Some SSerialize)
@@ -205,6 +219,7 @@ Definition dec_op (code : Z) (p : list Z) : dop :=
   | 12, f :: r => match dec_data r with Some d => DDeser f d | None => DBad end
   | 13, [f; k] => DLoad f (Z.to_nat k)
   | 14, [] => DSwap
+  | 15, l => DDeleteMany (map Z.to_nat l)
   | _, _ => DBad
   end%Z.
 
